@@ -183,6 +183,24 @@ def replay(ops: list[int], tolerant: bool = False):
         return w
 
 
+def adaptive(script: list[list[int]]):
+    """Plays a scripted scenario whose optional ops ([1, c, a, b, d]) are skipped when the implementation cannot perform
+    them at that point (all such refusals happen before any side effect).  Used for corpus scenarios that must stay
+    executable when a change moves a wake-up: the history actually performed is what is compared and judged."""
+    w = S.SWorld()
+    w.incomplete = None
+    with w:
+        for k, (opt, *op) in enumerate(script):
+            try:
+                w.do(*op)
+            except (AssertionError, IndexError, KeyError, ValueError, StopIteration, AttributeError) as e:
+                if opt:
+                    continue
+                w.incomplete = (k, type(e).__name__ + ': ' + ' '.join(x for x in map(_safe, e.args)))
+                break
+        return w
+
+
 def step_slices(w: S.SWorld):
     """Per-step (start, end) offsets into w.outs."""
     return getattr(w, "step_bounds", None)
